@@ -169,6 +169,9 @@ def run(ctx):
         ctx.case(('regression-group-default', codec))
         if not (d[0] == 'ok' and d[1].get('n6') == b'\xab' and d[1].get('n7') is True and tuple(d[1].get('n5', ())) == (b'\xa0', 3)):
             ctx.violation('%s: a V1 encoding decoded under V2 does not give the DEFAULT values of an absent addition group' % codec, {'codec': codec, 'v1': v1, 'v2': v2, 'got': repr(d[1:])[:400]})
+    # two extension markers, additions inserted in front of trailing root components (outside the generator's universe)
+    from .. import twomark
+    twomark.run(ctx, 'C07', rng, ctx.n(60, 800), CODECS)
     # witness of the known finding
     v1 = 'M DEFINITIONS AUTOMATIC TAGS ::= BEGIN A ::= SEQUENCE OF CHOICE { n NULL, ... } END'
     v2 = 'M DEFINITIONS AUTOMATIC TAGS ::= BEGIN A ::= SEQUENCE OF CHOICE { n NULL, ..., k1 BOOLEAN } END'
